@@ -114,6 +114,8 @@ func realLEB(kind string, b []byte) (ans string, inconsistent string) {
 
 var lebKinds = []string{"u32", "u64", "i32", "i64", "i33"}
 
+func hexDecode(s string) ([]byte, error) { return hex.DecodeString(s) }
+
 func hexOrDash(b []byte) string {
 	if len(b) == 0 {
 		return "-"
@@ -222,7 +224,7 @@ func tieLEB(r *rand.Rand) {
 	for s := uint(0); s < 64; s++ {
 		for _, d := range []int64{-2, -1, 0, 1} {
 			us = append(us, uint64(int64(1)<<s+d))
-			ss = append(ss, int64(1)<<s+d, -(int64(1) << s)+d)
+			ss = append(ss, int64(1)<<s+d, -(int64(1)<<s)+d)
 		}
 	}
 	for i := 0; i < nr/10; i++ {
